@@ -187,7 +187,7 @@ Section AnyNum.
   Proof.
     induction count as [|c IH]; intros P ret processed il iv; cbn [merge_clean merge_holes merge_spec].
     - intros _. exists ret. split; reflexivity.
-    - destruct (scan_ext (verts ret) 0 (pinner P) processed (c9e14, 0, 0, il, iv)) as [[[[md me] ml] il'] iv'].
+    - destruct (scan_ext (verts ret) 0 (pinner P) processed (scan_start false, 0, 0, il, iv)) as [[[[md me] ml] il'] iv'].
       destruct (nth_error (pinner P) ml) as [hole|]; [|discriminate].
       destruct (Nat.eqb (llen hole) 0) eqn:En; [discriminate|]. cbn [negb andb]. apply Nat.eqb_neq in En.
       destruct (rebuild false (lnormal (pouter P)) (verts ret) 0 me hole iv' loop_new) as [aux| |] eqn:Er; try discriminate.
